@@ -115,9 +115,31 @@ func (c *c05Case) buildSegment(api, encoder string, nfrags int, extras bool) (ou
 		var data []byte
 		var all []mp4.Sample
 		durIn := map[int]int64{}
+		// the payloads handed to the API are sub-slices (with spare capacity) of ONE source buffer laid out
+		// first sample, then the others in reverse order - as when samples come out of a demuxed buffer in
+		// another order than they are added. The expected bytes are generated separately (pristine).
+		src := make([][]byte, len(c.Hist))
+		{
+			var buf []byte
+			offs := make([]int, len(c.Hist))
+			order := []int{}
+			if len(c.Hist) > 0 {
+				order = append(order, 0)
+				for k := len(c.Hist) - 1; k >= 1; k-- {
+					order = append(order, k)
+				}
+			}
+			for _, k := range order {
+				offs[k] = len(buf)
+				buf = append(buf, tokenBytes(c.Hist[k].T, fr*100+k+1, int(c.Hist[k].D.Size))...)
+			}
+			for k := range c.Hist {
+				src[k] = buf[offs[k] : offs[k]+int(c.Hist[k].D.Size)]
+			}
+		}
 		for k, a := range c.Hist {
 			s := mp4.Sample{Flags: uint32(a.D.Flags), Dur: uint32(a.D.Dur), Size: uint32(a.D.Size), CompositionTimeOffset: int32(a.D.Cto)}
-			d := tokenBytes(a.T, fr*100+k+1, int(a.D.Size))
+			d := src[k]
 			dts := uint64(a.Dts + shift[a.T])
 			durIn[a.T] += a.D.Dur
 			switch api {
